@@ -40,7 +40,8 @@ C02_UNITS = [U(V1, f"{VI}.{m}") for m in ["_get_value_next_state", "_calculate_u
              "_extract_policy_idx_one_state", "_extract_policy_idx_state_batch", "_extract_policy_idx_scan_state_batches", "_extract_policy"]]
 PROPS["C02"] = dict(
     bounded=[dict(name="c02_runtime", script="harness_solvers.py", args=["--prop", "c02"], wall_s=300),
-             dict(name="interpreter_cross_check", script="xcheck.py", args=["--prop", "C02"], wall_s=200)],
+             dict(name="interpreter_cross_check", script="xcheck.py", args=["--prop", "C02"], wall_s=200),
+             dict(name="c03_multidevice", script="harness_devices.py", wall_s=600)],          # "every state": also when the sweep is spread over several devices and batches
     level="proof", units=C02_UNITS + PROPS["C18"]["units"][2:3],
     lean=["bell_discop", "bellpol_discop", "contraction", "span_contraction", "greedy_eq", "bellpol_le_bell"],
     links={"bell_discop": "monotone + shift-by-gamma*c of the operator that value_iteration.ValueIteration._update_values.post.elementwise proves the sweep to be (hypotheses P>=0, rows sum to 1 = WF-prob, discharged for the shipped problems under C13)",
@@ -231,6 +232,12 @@ def _extend(pid, extra):
     PROPS[pid]["units"] = PROPS[pid]["units"] + [u for u in extra if u.get("id") not in have]
 PI_KERNELS = [U(PIM, f"{PI}._calculate_policy_value_state_batch"), U(PIM, f"{PI}._calculate_policy_values")]
 UNBATCH = PROPS["C18"]["units"][2:3]
+# every solver property rests on the batch layout (state of slot (d, b, j) is state (d*B + b)*bs + j; results are flattened in the same order): the whole BatchProcessor chain
+BPCHAIN = PROPS["C18"]["units"][:4]
+# the solve-loop proofs apply "save(step) returns None and changes nothing on the solver" at the call sites: the real body as a unit of its own
+SAVE_UNIT = U(["contracts.save_unit"], "mdpax.utils.checkpointing.CheckpointMixin.save")
+for _p in ("C01", "C04", "C05", "C06", "C07", "C08"): _extend(_p, [SAVE_UNIT])
+for _p in ("C01", "C02", "C03", "C04", "C05", "C06", "C07", "C08"): _extend(_p, BPCHAIN)
 _extend("C01", C02_UNITS + SA_KERNELS + PI_KERNELS + UNBATCH)
 _extend("C04", C02_UNITS + UNBATCH)
 _extend("C05", C02_UNITS + UNBATCH)
